@@ -8,7 +8,7 @@ import S3V.Crypto.Base64
 Driver for component `secrets` (C16).
 case line:
 `secrets \t id \t kind \t outcome \t backend \t seed \t | \t status \t code \t accepted \t op \t nsinks \t nbytes
- \t nrecords \t hits \t corrsig \t secret(hex) \t ak(hex) \t dbg_secretkey(hex) \t json_secretkey(hex) \t dbg_credentials(opt hex)`
+ \t nrecords \t hits \t corrsig \t secret(hex) \t ak(hex) \t dbg_secretkey(hex) \t json_secretkey(hex) \t dbg_credentials(opt hex) \t nredacted`
 
 * SPEC (independent of the model): any occurrence of a secret (or of a derived signing key) reported by the
   harness's search of the sinks, or found by `SecretsSpec.leaksB` in the renderings on the line, is a SPECFAIL whose
@@ -16,7 +16,8 @@ case line:
 * MODEL: predicts (1) no occurrence anywhere, (2) `{:?}` of the `SecretKey` = `renderDebug Gen.secretKeyDebug`,
   (3) its JSON = `renderSerializeJson Gen.secretKeySerialize`, (4) `{:?}` of the credentials the backend received =
   `debugVal … (Some(Credentials{…}))`, (5) outcome `ok` is accepted and every other outcome is refused, (6) the
-  capture is alive (records were captured, sinks were searched).  The three `canary-*` kinds leak on purpose inside
+  capture is alive (records were captured, sinks were searched; behind the real s3s-fs backend the span fields of its
+  `#[instrument]`ed methods show the redacted key).  The three `canary-*` kinds leak on purpose inside
   the harness: the model predicts a hit in exactly that sink (this checks the search itself on every run).
 -/
 open S3V S3V.Secrets S3V.SecretsSpec S3V.Gen.Emit
@@ -33,6 +34,13 @@ def hitClass (hit : String) : String :=
     if (form.splitOn "derived").length > 1 then "derived-key-in-" ++ sink else "secret-in-" ++ sink
   | _ => "secret-in-?"
 
+/-- one defect, one class: a leak in `SecretKey`'s own `Debug`/`Serialize` shows up in every sink that embeds it, so
+    hits in the root sinks name the class before anything else does -/
+def rootFirst (hits : List String) : List String :=
+  let inSink (s : String) (h : String) : Bool := (h.splitOn "/").head? = some s
+  let roots := ["debug:SecretKey", "json:SecretKey", "debug:Credentials"]
+  roots.flatMap (fun r => hits.filter (inSink r)) ++ hits
+
 def canarySink (kind : String) : Option String :=
   if kind = "canary-log" then some "log"
   else if kind = "canary-debug" then some "debug:canary"
@@ -41,8 +49,8 @@ def canarySink (kind : String) : Option String :=
 
 def judge (fs : List String) : String :=
   match fs with
-  | [_comp, id, kind, outcome, _backend, _seed, "|", status, code, accepted, _op, nsinks, nbytes, nrecords, hits,
-     corrsig, secretH, akH, dbgSkH, jsonSkH, dbgCredH] =>
+  | [_comp, id, kind, outcome, backend, _seed, "|", status, code, accepted, _op, nsinks, nbytes, nrecords, hits,
+     corrsig, secretH, akH, dbgSkH, jsonSkH, dbgCredH, nredacted] =>
     match hexDecode secretH, hexDecode akH, hexDecode dbgSkH, hexDecode jsonSkH, optHexDecode dbgCredH with
     | some secret, some ak, some dbgSk, some jsonSk, some dbgCred =>
       let hitList := if hits = "-" then [] else hits.splitOn ","
@@ -54,7 +62,7 @@ def judge (fs : List String) : String :=
       | none =>
         if !(printable secret && printable ak) then unmodelled id "non-printable-key" else
         -- SPEC
-        if let h :: _ := hitList then specfail id (hitClass h) hits
+        if let h :: _ := rootFirst hitList then specfail id (hitClass h) hits
         else if leaksB hexB b64B secret dbgSk then specfail id "secret-in-debug:SecretKey" "found by the driver"
         else if leaksB hexB b64B secret jsonSk then specfail id "secret-in-json:SecretKey" "found by the driver"
         else if (dbgCred.map (leaksB hexB b64B secret)).getD false then
@@ -73,6 +81,9 @@ def judge (fs : List String) : String :=
         else if (accepted = "1") ≠ wantAccept then
           disagree id (if wantAccept then "accepted" else "refused") s!"accepted={accepted} status={status} code={code}"
         else if accepted = "1" && dbgCred.isNone then disagree id "credentials seen by the backend" "none"
+        else if accepted = "1" && backend.startsWith "fs" && nredacted.toNat?.getD 0 = 0 then
+          -- the `#[instrument]` spans of s3s-fs record the whole `S3Request`: the redacted key must be visible there
+          disagree id "redacted SecretKey in the s3s-fs span fields" "no captured record contains it"
         else
           agree id (kind ++ ":" ++ (if accepted = "1" then "accepted" else "refused-" ++ code)
                     ++ (if corrsig = "1" then "+valid-signature-logged" else ""))
